@@ -51,9 +51,9 @@ let () =
       let nv = int_of_nat (cnf_num_vars (cnf_new raw)) in
       let buf = Buffer.create 1024 in
       Buffer.add_string buf id;
-      (* ghost-instrumented compiler (same result by the erasure theorem, re-checked here), the
-         "no stale cache hit" flag under which C06_topdown_free_partial gives freeness, and the
-         cache-less compiler of C06_main, whose tree must be the same *)
+      (* ghost-instrumented compiler (same result by the erasure theorem, re-checked here), its
+         "no stale cache hit" flag (always true by C06_no_stale_cache_hit, re-checked here), and the
+         cache-less compiler of C06_topdown_correct_nocache, whose tree must be the same *)
       (match compile_raw_g ord true raw with
        | Some (rg, fl) ->
          (match compile_raw false ord false true raw with
